@@ -35,6 +35,18 @@
 //	massign      -> (k11b2Assign)     `xs := make([][]T, 0, c)` = no byte lists; `xs = nil` of a list of byte lists
 //	return       -> fc.k11b2Return    `nil` for a result of type [][]byte
 //
+// Module K11c (the Aztec high-level decoder):
+//	leanTypeM    -> k11b2Type         `[]bool` = `List Int` of 0 / 1 (a read is `x != 0`, as in ext_k11b.go); `[]string` = a list of byte lists
+//	mexpr        -> fc.k11b2Mexpr     reads of `[]bool` elements; `tbl[i]` of a []string (`Gzx.GoM.idxLL`, checked); `s == "constant"` of
+//	                                  strings; `strings.HasPrefix(s, "constant")` = `Gzx.GoM.hasPrefix`; the ABSTRACT callees below
+//	massign      -> fc.k11b2Assign    `var tbl []string` / `tbl = UPPER_TABLE` (package-level []string constants as tables of byte lists);
+//	                                  `result, _, e = transform.Append(encoding.NewDecoder(), result, decodedBytes)` and
+//	                                  `charsetECI, e := common.GetCharacterSetECIByValue(eci)` as calls of ABSTRACT parameters
+//	genFuncM     -> fc.k11b2Prepare   `if c { break }` at the top of a `switch` arm = `if !c { rest of the arm }`;
+//	                                  package-level `encoding.Encoding` objects and `*CharacterSetECI` values are `Int` tokens (nil = -1):
+//	                                  `DEFAULT_ENCODING`, `charsetECI.GetCharset()` = `eci_GetCharset tok`, `x == nil`
+//	genFuncM     -> fc.k11b2Params    the abstract parameters in front of the ordinary ones (sorted by name)
+//
 // Run-time library: lean/Gzx/GoMK11b2.lean.
 package main
 
@@ -109,6 +121,17 @@ func (fc *fnCtx) k11b2Stmt(s ast.Stmt, rest []ast.Stmt, lvl int) (string, bool, 
 	if ds, ok := s.(*ast.DeclStmt); ok {
 		if gd, ok := ds.Decl.(*ast.GenDecl); ok && gd.Tok == token.VAR && len(gd.Specs) == 1 {
 			if vs, ok := gd.Specs[0].(*ast.ValueSpec); ok && len(vs.Values) == 0 && vs.Type != nil && len(vs.Names) == 1 {
+				if lt, err := leanTypeM(fc.p.TypesInfo.TypeOf(vs.Type)); err == nil && lt == "List (List Int)" {
+					var sb strings.Builder
+					sb.WriteString(fc.flush(lvl))
+					fc.declare(vs.Names[0].Name, lt)
+					fmt.Fprintf(&sb, "%slet %s : List (List Int) := []\n", ind(lvl), fc.name(vs.Names[0].Name))
+					r, err := fc.mblock(rest, lvl)
+					if err != nil {
+						return "", true, err
+					}
+					return sb.String() + r, true, nil
+				}
 				if t := fc.p.TypesInfo.TypeOf(vs.Type); t != nil && (t.String() == "error" || isErrorType(t)) {
 					var sb strings.Builder
 					sb.WriteString(fc.flush(lvl))
@@ -176,6 +199,9 @@ func k11b2AssignedByCall(call *ast.CallExpr, assigned, whole map[string]bool) {
 func (fc *fnCtx) k11b2Prepare(fd *ast.FuncDecl) {
 	if !k11b2On() || fd.Body == nil {
 		return
+	}
+	if strings.HasPrefix(curModule, "K11c") {
+		fc.k11b2PrepareAztec(fd)
 	}
 	// the local variables of the function in order of declaration
 	var order []types.Object
@@ -320,6 +346,11 @@ func (fc *fnCtx) k11b2Assign(x *ast.AssignStmt, rest []ast.Stmt, lvl int) (strin
 			}
 		}
 	}
+	if strings.HasPrefix(curModule, "K11c") {
+		if s, handled, err := fc.k11b2AssignAztec(x, rest, lvl); handled {
+			return s, true, err
+		}
+	}
 	// xs := make([][]T, 0, c) / xs = nil of a list of byte lists
 	if len(x.Lhs) == 1 && len(x.Rhs) == 1 && (x.Tok == token.ASSIGN || x.Tok == token.DEFINE) {
 		if lid, ok := x.Lhs[0].(*ast.Ident); ok && lid.Name != "_" {
@@ -445,7 +476,33 @@ func k11b2Type(t types.Type) (string, bool) {
 	if k11b2IsIntSet(t) {
 		return "List Int", true
 	}
+	if !strings.HasPrefix(curModule, "K11c") {
+		return "", false
+	}
+	if k11bIsBoolSlice(t) {
+		return "List Int", true
+	}
+	if sl, ok := t.Underlying().(*types.Slice); ok {
+		if b, ok := sl.Elem().Underlying().(*types.Basic); ok && b.Info()&types.IsString != 0 {
+			return "List (List Int)", true
+		}
+	}
+	if k11b2IsToken(t) {
+		return "Int", true
+	}
 	return "", false
+}
+
+// k11b2IsToken: object types the Aztec decoder only passes around
+func k11b2IsToken(t types.Type) bool {
+	if t == nil {
+		return false
+	}
+	switch t.String() {
+	case "golang.org/x/text/encoding.Encoding", "*github.com/makiuchi-d/gozxing/common.CharacterSetECI":
+		return true
+	}
+	return false
 }
 
 // ---------- list-valued expressions ----------
@@ -470,6 +527,11 @@ func (fc *fnCtx) k11b2PkgCall(call *ast.CallExpr) (string, bool) {
 func (fc *fnCtx) k11b2Lexpr(ex ast.Expr) (string, bool, error) {
 	if !k11b2On() || fc.m == nil {
 		return "", false, nil
+	}
+	if strings.HasPrefix(curModule, "K11c") {
+		if s, handled, err := fc.k11b2Lookup(ex); handled {
+			return s, true, err
+		}
 	}
 	if cl, ok := ex.(*ast.CompositeLit); ok && len(cl.Elts) == 0 {
 		if lt, err := leanTypeM(fc.p.TypesInfo.TypeOf(cl)); err == nil && lt == "List Int" {
@@ -602,6 +664,7 @@ func (fc *fnCtx) k11b2Lexpr(ex ast.Expr) (string, bool, error) {
 
 // k11b2Used: a loop body that returns mentions every out variable (the `.ret` value carries them)
 func (fc *fnCtx) k11b2Used(nodes []ast.Node, used map[string]bool) {
+	fc.k11b2UsedAbs(nodes, used)
 	if !k11b2On() || fc.m == nil || len(fc.m.outVars) == 0 {
 		return
 	}
@@ -621,6 +684,21 @@ func (fc *fnCtx) k11b2Used(nodes []ast.Node, used map[string]bool) {
 		for _, o := range fc.m.outVars {
 			used[o] = true
 		}
+	}
+}
+
+// k11b2UsedAbs: the abstract parameters a loop body mentions
+func (fc *fnCtx) k11b2UsedAbs(nodes []ast.Node, used map[string]bool) {
+	if !strings.HasPrefix(curModule, "K11c") || fc.m == nil {
+		return
+	}
+	for _, nd := range nodes {
+		ast.Inspect(nd, func(n ast.Node) bool {
+			if name, _, ok := fc.k11b2AbsOf(n); ok {
+				used[name] = true
+			}
+			return true
+		})
 	}
 }
 
@@ -733,6 +811,11 @@ func (fc *fnCtx) k11b2Mexpr(ex ast.Expr) (string, bool, error) {
 	if !k11b2On() || fc.m == nil {
 		return "", false, nil
 	}
+	if strings.HasPrefix(curModule, "K11c") {
+		if s, handled, err := fc.k11b2MexprAztec(ex); handled {
+			return s, true, err
+		}
+	}
 	if call, ok := ex.(*ast.CallExpr); ok {
 		// len(xs) of a list of byte lists
 		if id, ok := call.Fun.(*ast.Ident); ok && id.Name == "len" && len(call.Args) == 1 {
@@ -762,4 +845,379 @@ func (fc *fnCtx) k11b2Mexpr(ex ast.Expr) (string, bool, error) {
 		}
 	}
 	return "", false, nil
+}
+
+// ---------- module K11c: the Aztec high-level decoder ----------
+
+type k11b2EnvParam struct{ name, lt string }
+
+var k11b2Env = map[*fnCtx][]k11b2EnvParam{}
+
+func (fc *fnCtx) k11b2Declare(name, lt string) {
+	for _, e := range k11b2Env[fc] {
+		if e.name == name {
+			return
+		}
+	}
+	fc.declare(name, lt)
+	fc.paramNames = append(fc.paramNames, name)
+	k11b2Env[fc] = append(k11b2Env[fc], k11b2EnvParam{name, lt})
+}
+
+// k11b2Params: the abstract parameters go in front of the ordinary ones
+func (fc *fnCtx) k11b2Params(params []string) []string {
+	env := append([]k11b2EnvParam{}, k11b2Env[fc]...)
+	if len(env) == 0 {
+		return params
+	}
+	for i := 0; i < len(env); i++ {
+		for j := i + 1; j < len(env); j++ {
+			if env[j].name < env[i].name {
+				env[i], env[j] = env[j], env[i]
+			}
+		}
+	}
+	var out []string
+	for _, e := range env {
+		out = append(out, fmt.Sprintf("(%s : %s)", leanIdent(e.name), e.lt))
+	}
+	return append(out, params...)
+}
+
+// k11b2StringTable: a package-level []string constant as a table of byte lists
+func (fc *fnCtx) k11b2StringTable(id *ast.Ident) (string, bool) {
+	obj, ok := fc.p.TypesInfo.Uses[id].(*types.Var)
+	if !ok || obj.Pkg() == nil || obj.Parent() != obj.Pkg().Scope() || assignedAnywhere(fc.p, obj) {
+		return "", false
+	}
+	op := pkgs[obj.Pkg().Path()]
+	if op == nil {
+		return "", false
+	}
+	init, ip := findVarInit(op, obj.Name())
+	cl, ok := init.(*ast.CompositeLit)
+	if !ok {
+		return "", false
+	}
+	var rows []string
+	for _, el := range cl.Elts {
+		tv, ok := ip.TypesInfo.Types[el]
+		if !ok || tv.Value == nil || tv.Value.Kind() != constant.String {
+			return "", false
+		}
+		rows = append(rows, intLitList(stringBytes(constant.StringVal(tv.Value))))
+	}
+	ln := "tbl_" + obj.Name()
+	if !fc.m.tableSeen[ln] && !moduleTables[fc.m.module+"|"+ln] {
+		fc.m.tableSeen[ln] = true
+		fc.m.tables = append(fc.m.tables, fmt.Sprintf("/-- package-level table %s (inlined: the bytes of every string) -/\ndef %s : List (List Int) := [%s]\n",
+			obj.Name(), ln, strings.Join(rows, ", ")))
+	}
+	return ln, true
+}
+
+// k11b2LL: a list-of-byte-lists valued expression
+func (fc *fnCtx) k11b2LL(e ast.Expr) (string, bool) {
+	id, ok := e.(*ast.Ident)
+	if !ok {
+		return "", false
+	}
+	if _, seen := fc.locals[id.Name]; seen && fc.m.ltype[id.Name] == "List (List Int)" {
+		return fc.name(id.Name), true
+	}
+	return fc.k11b2StringTable(id)
+}
+
+func (fc *fnCtx) k11b2MexprAztec(ex ast.Expr) (string, bool, error) {
+	switch x := ex.(type) {
+	case *ast.Ident:
+		if x.Name == "k11b2_err" {
+			return "true", true, nil
+		}
+		// package-level object token
+		if obj, ok := fc.p.TypesInfo.Uses[x].(*types.Var); ok && obj.Pkg() != nil && obj.Parent() == obj.Pkg().Scope() && k11b2IsToken(obj.Type()) {
+			fc.k11b2Declare(x.Name, "Int")
+			return fc.name(x.Name), true, nil
+		}
+	case *ast.IndexExpr:
+		t := fc.p.TypesInfo.TypeOf(x.X)
+		if k11bIsBoolSlice(t) {
+			base, err := fc.lexpr(x.X)
+			if err != nil {
+				return "", true, err
+			}
+			i, err := fc.expr(x.Index)
+			if err != nil {
+				return "", true, err
+			}
+			return "(" + fc.bind(fmt.Sprintf("Gzx.GoM.idx %s %s", base, i)) + " != 0)", true, nil
+		}
+	case *ast.BinaryExpr:
+		if x.Op == token.EQL || x.Op == token.NEQ {
+			// token == nil
+			if id, ok := x.Y.(*ast.Ident); ok && id.Name == "nil" && k11b2IsToken(fc.p.TypesInfo.TypeOf(x.X)) {
+				a, err := fc.expr(x.X)
+				if err != nil {
+					return "", true, err
+				}
+				op := "=="
+				if x.Op == token.NEQ {
+					op = "!="
+				}
+				return fmt.Sprintf("(%s %s (-1))", a, op), true, nil
+			}
+			// string comparison
+			tx := fc.p.TypesInfo.TypeOf(x.X)
+			if b, ok := tx.Underlying().(*types.Basic); ok && b.Info()&types.IsString != 0 {
+				a, err := fc.lexpr(x.X)
+				if err != nil {
+					return "", true, err
+				}
+				c, err := fc.lexpr(x.Y)
+				if err != nil {
+					return "", true, err
+				}
+				op := "=="
+				if x.Op == token.NEQ {
+					op = "!="
+				}
+				return fmt.Sprintf("(%s %s %s)", a, op, c), true, nil
+			}
+		}
+	case *ast.CallExpr:
+		if full, ok := fc.k11b2PkgCall(x); ok && full == "strings.HasPrefix" && len(x.Args) == 2 {
+			a, err := fc.lexpr(x.Args[0])
+			if err != nil {
+				return "", true, err
+			}
+			c, err := fc.lexpr(x.Args[1])
+			if err != nil {
+				return "", true, err
+			}
+			k11b2NeedLib(fc.m.module)
+			return fmt.Sprintf("(Gzx.GoM.hasPrefix %s %s)", a, c), true, nil
+		}
+		// charsetECI.GetCharset()
+		if sel, ok := x.Fun.(*ast.SelectorExpr); ok && sel.Sel.Name == "GetCharset" && len(x.Args) == 0 && k11b2IsToken(fc.p.TypesInfo.TypeOf(sel.X)) {
+			a, err := fc.expr(sel.X)
+			if err != nil {
+				return "", true, err
+			}
+			fc.k11b2Declare("eci_GetCharset", "Int → Int")
+			return fmt.Sprintf("(%s %s)", fc.name("eci_GetCharset"), a), true, nil
+		}
+	}
+	return "", false, nil
+}
+
+// k11b2Lookup: `tbl[i]` of a list of byte lists, as a list-valued expression
+func (fc *fnCtx) k11b2Lookup(ex ast.Expr) (string, bool, error) {
+	ix, ok := ex.(*ast.IndexExpr)
+	if !ok {
+		return "", false, nil
+	}
+	base, ok := fc.k11b2LL(ix.X)
+	if !ok {
+		return "", false, nil
+	}
+	i, err := fc.expr(ix.Index)
+	if err != nil {
+		return "", true, err
+	}
+	k11b2NeedLib(fc.m.module)
+	return fc.bind(fmt.Sprintf("Gzx.GoM.idxLL %s %s", base, i)), true, nil
+}
+
+func (fc *fnCtx) k11b2AssignAztec(x *ast.AssignStmt, rest []ast.Stmt, lvl int) (string, bool, error) {
+	cont := func(prefix string) (string, bool, error) {
+		r, err := fc.mblock(rest, lvl)
+		if err != nil {
+			return "", true, err
+		}
+		return prefix + r, true, nil
+	}
+	// tbl = UPPER_TABLE
+	if len(x.Lhs) == 1 && len(x.Rhs) == 1 && x.Tok == token.ASSIGN {
+		if lid, ok := x.Lhs[0].(*ast.Ident); ok {
+			if _, seen := fc.locals[lid.Name]; seen && fc.m.ltype[lid.Name] == "List (List Int)" {
+				if rid, ok := x.Rhs[0].(*ast.Ident); ok {
+					if tb, ok := fc.k11b2StringTable(rid); ok {
+						var sb strings.Builder
+						sb.WriteString(fc.flush(lvl))
+						nn := fc.bump(lid.Name)
+						fmt.Fprintf(&sb, "%slet %s : List (List Int) := %s\n", ind(lvl), nn, tb)
+						return cont(sb.String())
+					}
+				}
+			}
+		}
+	}
+	if len(x.Rhs) != 1 {
+		return "", false, nil
+	}
+	call, ok := x.Rhs[0].(*ast.CallExpr)
+	if !ok {
+		return "", false, nil
+	}
+	full, ok := fc.k11b2PkgCall(call)
+	if !ok {
+		return "", false, nil
+	}
+	bindTo := func(l ast.Expr, lt, val string, sb *strings.Builder) error {
+		id, ok := l.(*ast.Ident)
+		if !ok {
+			return fmt.Errorf("assignment to non-local")
+		}
+		if id.Name == "_" {
+			return nil
+		}
+		if x.Tok == token.DEFINE {
+			fc.declare(id.Name, lt)
+			fmt.Fprintf(sb, "%slet %s := %s\n", ind(lvl), fc.name(id.Name), val)
+			return nil
+		}
+		if _, seen := fc.locals[id.Name]; !seen {
+			return fmt.Errorf("free identifier %s", id.Name)
+		}
+		nn := fc.bump(id.Name)
+		fmt.Fprintf(sb, "%slet %s := %s\n", ind(lvl), nn, val)
+		return nil
+	}
+	switch {
+	case full == "golang.org/x/text/transform.Append" && len(call.Args) == 3 && len(x.Lhs) == 3:
+		// result, _, e = transform.Append(encoding.NewDecoder(), result, decodedBytes)
+		dec, ok := call.Args[0].(*ast.CallExpr)
+		if !ok || len(dec.Args) != 0 {
+			return "", true, fmt.Errorf("transform.Append: the transformer is not <encoding>.NewDecoder()")
+		}
+		dsel, ok := dec.Fun.(*ast.SelectorExpr)
+		if !ok || dsel.Sel.Name != "NewDecoder" || !k11b2IsToken(fc.p.TypesInfo.TypeOf(dsel.X)) {
+			return "", true, fmt.Errorf("transform.Append: the transformer is not <encoding>.NewDecoder()")
+		}
+		enc, err := fc.expr(dsel.X)
+		if err != nil {
+			return "", true, err
+		}
+		dst, err := fc.lexpr(call.Args[1])
+		if err != nil {
+			return "", true, err
+		}
+		src, err := fc.lexpr(call.Args[2])
+		if err != nil {
+			return "", true, err
+		}
+		fc.k11b2Declare("transform_Append", "Int → List Int → List Int → Gzx.Res (List Int × Bool)")
+		t := fc.bind(fmt.Sprintf("%s %s %s %s", fc.name("transform_Append"), enc, dst, src))
+		var sb strings.Builder
+		sb.WriteString(fc.flush(lvl))
+		if err := bindTo(x.Lhs[0], "List Int", t+".1", &sb); err != nil {
+			return "", true, err
+		}
+		if id, ok := x.Lhs[1].(*ast.Ident); !ok || id.Name != "_" {
+			return "", true, fmt.Errorf("transform.Append: the byte count must be dropped")
+		}
+		if err := bindTo(x.Lhs[2], "Bool", t+".2", &sb); err != nil {
+			return "", true, err
+		}
+		return cont(sb.String())
+	case strings.HasSuffix(full, "/common.GetCharacterSetECIByValue") && len(call.Args) == 1 && len(x.Lhs) == 2:
+		v, err := fc.expr(call.Args[0])
+		if err != nil {
+			return "", true, err
+		}
+		fc.k11b2Declare("eci_ByValue", "Int → Gzx.Res (Int × Bool)")
+		t := fc.bind(fmt.Sprintf("%s %s", fc.name("eci_ByValue"), v))
+		var sb strings.Builder
+		sb.WriteString(fc.flush(lvl))
+		if err := bindTo(x.Lhs[0], "Int", t+".1", &sb); err != nil {
+			return "", true, err
+		}
+		if err := bindTo(x.Lhs[1], "Bool", t+".2", &sb); err != nil {
+			return "", true, err
+		}
+		return cont(sb.String())
+	}
+	return "", false, nil
+}
+
+// k11b2AbsOf: the abstract parameter a node stands for
+func (fc *fnCtx) k11b2AbsOf(n ast.Node) (string, string, bool) {
+	switch x := n.(type) {
+	case *ast.CallExpr:
+		if full, ok := fc.k11b2PkgCall(x); ok {
+			if full == "golang.org/x/text/transform.Append" {
+				return "transform_Append", "Int → List Int → List Int → Gzx.Res (List Int × Bool)", true
+			}
+			if strings.HasSuffix(full, "/common.GetCharacterSetECIByValue") {
+				return "eci_ByValue", "Int → Gzx.Res (Int × Bool)", true
+			}
+		}
+		if sel, ok := x.Fun.(*ast.SelectorExpr); ok && sel.Sel.Name == "GetCharset" && len(x.Args) == 0 && k11b2IsToken(fc.p.TypesInfo.TypeOf(sel.X)) {
+			return "eci_GetCharset", "Int → Int", true
+		}
+	case *ast.Ident:
+		if obj, ok := fc.p.TypesInfo.Uses[x].(*types.Var); ok && obj.Pkg() != nil && obj.Parent() == obj.Pkg().Scope() && k11b2IsToken(obj.Type()) {
+			return x.Name, "Int", true
+		}
+	}
+	return "", "", false
+}
+
+// k11b2PrepareAztec: `if c { break }` at the top level of a switch arm = `if !c { rest of the arm }`
+func (fc *fnCtx) k11b2PrepareAztec(fd *ast.FuncDecl) {
+	// the abstract parameters are declared before the body is translated (loop bodies take them as free variables)
+	ast.Inspect(fd.Body, func(n ast.Node) bool {
+		if name, lt, ok := fc.k11b2AbsOf(n); ok {
+			fc.k11b2Declare(name, lt)
+		}
+		return true
+	})
+	ast.Inspect(fd.Body, func(n ast.Node) bool {
+		cc, ok := n.(*ast.CaseClause)
+		if !ok {
+			return true
+		}
+		for i, st := range cc.Body {
+			is, ok := st.(*ast.IfStmt)
+			if !ok || is.Init != nil || is.Else != nil || len(is.Body.List) != 1 {
+				continue
+			}
+			br, ok := is.Body.List[0].(*ast.BranchStmt)
+			if !ok || br.Tok != token.BREAK || br.Label != nil {
+				continue
+			}
+			neg := &ast.UnaryExpr{Op: token.NOT, OpPos: is.Cond.Pos(), X: &ast.ParenExpr{X: is.Cond, Lparen: is.Cond.Pos(), Rparen: is.Cond.End()}}
+			fc.p.TypesInfo.Types[neg] = fc.p.TypesInfo.Types[is.Cond]
+			fc.p.TypesInfo.Types[neg.X] = fc.p.TypesInfo.Types[is.Cond]
+			restArm := append([]ast.Stmt{}, cc.Body[i+1:]...)
+			cc.Body = append(append([]ast.Stmt{}, cc.Body[:i]...), &ast.IfStmt{If: is.If, Cond: neg, Body: &ast.BlockStmt{Lbrace: is.Body.Lbrace, List: restArm, Rbrace: is.Body.Rbrace}})
+			break
+		}
+		return true
+	})
+	// gozxing.NewFormatException(..) / WrapFormatException(..): the error flag
+	k11bRewriteExprs(fd.Body, func(e ast.Expr) ast.Expr {
+		call, ok := e.(*ast.CallExpr)
+		if !ok {
+			return e
+		}
+		if full, ok := fc.k11b2PkgCall(call); ok && (full == "github.com/makiuchi-d/gozxing.NewFormatException" || full == "github.com/makiuchi-d/gozxing.WrapFormatException") {
+			for _, a := range call.Args {
+				switch y := a.(type) {
+				case *ast.Ident, *ast.BasicLit:
+					_ = y
+				case *ast.CallExpr:
+					if id, ok := y.Fun.(*ast.Ident); !ok || id.Name != "len" {
+						return e
+					}
+				default:
+					return e
+				}
+			}
+			id := &ast.Ident{Name: "k11b2_err", NamePos: call.Pos()}
+			fc.p.TypesInfo.Types[id] = types.TypeAndValue{Type: types.Universe.Lookup("error").Type()}
+			return id
+		}
+		return e
+	})
 }
